@@ -1,5 +1,6 @@
 import InfluxQL.Gen.SitesAst
 import InfluxQL.Model.GroupBy
+import InfluxQL.Lemmas.OpsChecked
 import InfluxQL.Props.C19
 import InfluxQL.Props.C20
 /-!
@@ -9,9 +10,13 @@ Three ingredients:
 * the inventory of syntactically visible panic sites of ast.go / utils.go, regenerated from the
   source on every run (`Gen.sitesAst`), must equal the reviewed list below — a new index, slice,
   unchecked assertion, integer division or `panic` call in those files breaks this obligation;
-* models in which the relevant sites are *checked* operations (`indexOrPanic`, `remOrPanic`, the
-  fuel of the suffix loop, the nil target of a continuous query) with theorems that no panic
-  outcome is reachable for any input;
+* models in which the sites are *checked* operations (`Model/GroupBy.lean`: `indexOrPanic`,
+  `remOrPanic`; `Model/OpsChecked.lean`: `idx`, `setIdx`, `slice…`, `div…`/`rem…`, `goPanic`, the
+  type switches of the clone routines read off the regenerated clone table; `Model/Priv.lean`:
+  `emptyBase`) with theorems that no panic outcome is reachable — for every input, or for every
+  input that satisfies a hypothesis spelled out in the statement (`sort.Interface` indices, `int64`
+  range of the integers). `gen_modelled_sites` ties the list of checked sites to the inventory:
+  all inventoried sites of a modelled function must be in the list;
 * the property oracle of stream `ops.total`, which runs every public operation under `recover`
   on statements of odd shape (correspondence side).
 -/
@@ -181,6 +186,249 @@ theorem normalizeLoop_no_panic (dims : List Expr) (dur : Int) (tags : List Str) 
 theorem normalize_no_panic (dims : List Expr) : (normalize dims).isPanic = false :=
   normalizeLoop_no_panic dims 0 []
 
+/-! ## Checked models (Model/OpsChecked.lean): which inventoried sites they cover -/
+
+open Checked in
+/-- The inventoried sites that are checked primitives of a model, in inventory order. The entries
+written `s…` are the very values the primitives of `Model/OpsChecked.lean` carry; the four
+`GROUP BY` sites are the `indexOrPanic` / `remOrPanic` calls of `Model/GroupBy.lean`, and `ep[0]` is
+the `emptyBase` failure of `Model/Priv.lean` (`requiredPrivileges_total`). -/
+def modelledSites : List Site := [
+  sCloneArgs, sCloneUnreachable,
+  ("CreateContinuousQueryStatement.RequiredPrivileges", "index", "ep[0]"),
+  ("Dimensions.Normalize", "index", "expr.Args[0]"),
+  sConj0, sConjTail,
+  sFieldsLessI, sFieldsLessJ, sFieldsSwapI, sFieldsSwapJ,
+  sColTime, sColSlot, sColArgs,
+  sFieldExprArgs,
+  ("SelectStatement.GroupByInterval", "index", "call.Args[0]"),
+  ("SelectStatement.GroupByOffset", "divide", "expr.Val % interval"),
+  ("SelectStatement.GroupByOffset", "index", "call.Args[1]"),
+  sRFAssert, sRFArgs0,
+  sRegexVals0, sRegexValsI,
+  sTimeFieldsIdx, sTimeFieldsPre, sTimeFieldsPost,
+  sTimeAscending,
+  sEvalTypeArgs,
+  sEvalArgs,
+  sEvalMod, sEvalUIMod, sEvalDiv, sEvalUIDiv, sEvalIUMod, sEvalIUDiv,
+  sVarRefsLessI, sVarRefsLessJ, sVarRefsStrings, sVarRefsSwapI, sVarRefsSwapJ,
+  sCloneSourceUnreachable,
+  sMESub0, sMESubLast, sMESubMid,
+  sMRConcat, sMRNames0, sMRRuneI1, sMRRuneI, sMRSub0, sMRVals0, sMRSubTail,
+  sReduceDurDiv, sReduceIntMod, sReduceUintMod, sReduceUintDiv,
+  sReduceCallVals, sReduceCallArgs
+]
+
+/-- The functions of ast.go / utils.go that have a checked model. -/
+def modelledFunctions : List String := [
+  "CloneExpr", "CreateContinuousQueryStatement.RequiredPrivileges", "Dimensions.Normalize",
+  "ExprsToConjunction", "Fields.Less", "Fields.Swap", "SelectStatement.ColumnNames",
+  "SelectStatement.FieldExprByName", "SelectStatement.GroupByInterval", "SelectStatement.GroupByOffset",
+  "SelectStatement.RewriteFields", "SelectStatement.RewriteRegexConditions", "SelectStatement.RewriteTimeFields",
+  "SelectStatement.TimeAscending", "TypeValuerEval.evalCallExprType", "ValuerEval.Eval",
+  "ValuerEval.evalBinaryExpr", "VarRefs.Less", "VarRefs.Strings", "VarRefs.Swap", "cloneSource",
+  "matchExactRegex", "matchRegex",
+  "reduceBinaryExprDurationLHS", "reduceBinaryExprIntegerLHS", "reduceBinaryExprUnsignedLHS", "reduceCall"
+]
+
+/-- Every inventoried site of a modelled function is a checked primitive of its model, and
+nothing else is claimed: the regenerated inventory restricted to the modelled functions *is*
+`modelledSites`. A new index, slice, assertion, division or `panic` in one of these functions
+breaks this obligation until the model has a primitive for it. -/
+theorem gen_modelled_sites :
+    sitesAst.filter (fun s => modelledFunctions.contains s.1) = modelledSites := by decide
+
+/-- 55 of the 71 inventoried sites are covered by a checked primitive and a theorem. -/
+theorem gen_modelled_sites_count : modelledSites.length = 55 ∧ sitesAst.length = 71 := by decide
+
+/-- The remaining 16 sites (reviewed list only): `Rewrite` with a caller-supplied `Rewriter`
+(13 assertions) and the protobuf codec of `Sources` (3). -/
+theorem gen_unmodelled_functions :
+    ((sitesAst.filter (fun s => !modelledFunctions.contains s.1)).map (·.1)).eraseDups
+      = ["Rewrite", "Sources.MarshalBinary", "Sources.UnmarshalBinary"] := by
+  decide
+
+/-! ## `ColumnNames`, `FieldExprByName`, `TimeAscending`, `ExprsToConjunction`, `RewriteTimeFields` -/
+
+/-- The checked `ColumnNames` (slice `f.Args[1:]`, the stores `columnNames[0]` and
+`columnNames[i+offset]` and the read of `columnNames[i+offset]` are bounds-checked) returns, for
+every statement, exactly the list the total model of C20 returns — the model the stream
+`columns.names` compares with the Go code. -/
+theorem columnNames_checked_eq (s : SelectStmt) :
+    ∃ out, Checked.columnNames s = .ok out ∧ s.columnNames = some out := by
+  obtain ⟨out, h⟩ := C20.columnNames_total s
+  refine ⟨out, ?_, h⟩
+  unfold SelectStmt.columnNames at h
+  unfold Checked.columnNames
+  rw [Checked.columnNamesOf_eq, h]
+
+/-- **C13 (ColumnNames).** No panic for any statement; `SELECT top()` included (repaired by 7d5f959). -/
+theorem columnNames_no_panic (s : SelectStmt) : (Checked.columnNames s).isPanic = false := by
+  obtain ⟨out, h, _⟩ := columnNames_checked_eq s
+  exact Checked.isPanic_ok h
+
+/-- **C13 (FieldExprByName).** The slice `call.Args[1 : len(call.Args)-1]` is in range whenever it is
+evaluated: the function returns for every field list and name. -/
+theorem fieldExprByName_no_panic (name : Str) (fields : List Field) :
+    ∃ r, Checked.fieldExprByName name fields = .ok r :=
+  Checked.fieldExprByNameLoop_ok name fields 0
+
+/-- **C13 (TimeAscending).** -/
+theorem timeAscending_no_panic (sortFields : List SortField) :
+    ∃ b, Checked.timeAscending sortFields = .ok b := ⟨_, Checked.timeAscending_eq sortFields⟩
+
+/-- **C13 (ExprsToConjunction).** -/
+theorem exprsToConjunction_no_panic (exprs : List Expr) :
+    ∃ r, Checked.exprsToConjunction exprs = .ok r := ⟨_, Checked.exprsToConjunction_eq exprs⟩
+
+/-- **C13 (RewriteTimeFields).** The index loop over a slice that shrinks while it runs stays inside
+the slice (`s.Fields[i]`, `s.Fields[:i]`, `s.Fields[i+1:]`), and ends. -/
+theorem rewriteTimeFields_no_panic (fields : List Field) (timeAlias : Str) :
+    ∃ r, Checked.rewriteTimeFields fields timeAlias = .ok r :=
+  Checked.rewriteTimeFields_ok fields timeAlias
+
+/-! ## `sort.Interface` of `Fields` / `VarRefs`, `VarRefs.Strings`
+
+`Less(i, j)` and `Swap(i, j)` index the slice with the caller's `i`, `j`. The hypothesis is the
+contract of `sort.Interface`: `0 ≤ i, j < Len()`. `Swap` keeps the length, so the contract is
+maintained across calls. -/
+
+theorem fieldsLess_no_panic (a : List Field) (i j : Int)
+    (hi : 0 ≤ i ∧ i < a.length) (hj : 0 ≤ j ∧ j < a.length) :
+    ∃ b, Checked.fieldsLess a i j = .ok b := Checked.fieldsLess_ok a i j hi hj
+
+theorem fieldsSwap_no_panic (a : List Field) (i j : Int)
+    (hi : 0 ≤ i ∧ i < a.length) (hj : 0 ≤ j ∧ j < a.length) :
+    ∃ a', Checked.fieldsSwap a i j = .ok a' ∧ a'.length = a.length := Checked.fieldsSwap_ok a i j hi hj
+
+theorem varRefsLess_no_panic (a : List ColRef) (i j : Int)
+    (hi : 0 ≤ i ∧ i < a.length) (hj : 0 ≤ j ∧ j < a.length) :
+    ∃ b, Checked.varRefsLess a i j = .ok b := Checked.varRefsLess_ok a i j hi hj
+
+theorem varRefsSwap_no_panic (a : List ColRef) (i j : Int)
+    (hi : 0 ≤ i ∧ i < a.length) (hj : 0 ≤ j ∧ j < a.length) :
+    ∃ a', Checked.varRefsSwap a i j = .ok a' ∧ a'.length = a.length := Checked.varRefsSwap_ok a i j hi hj
+
+/-- **C13 (VarRefs.Strings).** -/
+theorem varRefsStrings_no_panic (a : List ColRef) :
+    Checked.varRefsStrings a = .ok (a.map (·.name)) := Checked.varRefsStrings_eq a
+
+/-! ## Clone routines -/
+
+/-- The model's `Expr` has a constructor for exactly the struct types of ast.go that carry the
+`expr()` marker (regenerated list `Gen.exprTypes`), and `Source` for those with `source()`: a new
+node type in the Go code breaks this obligation. -/
+theorem gen_node_types_modelled :
+    (Gen.exprTypes.filterMap (Gen.structNames[·]?)).all (Checked.modelExprTypes.contains ·) = true ∧
+    Checked.modelExprTypes.all ((Gen.exprTypes.filterMap (Gen.structNames[·]?)).contains ·) = true ∧
+    (Gen.sourceTypes.filterMap (Gen.structNames[·]?)).all (Checked.modelSourceTypes.contains ·) = true ∧
+    Checked.modelSourceTypes.all ((Gen.sourceTypes.filterMap (Gen.structNames[·]?)).contains ·) = true := by
+  decide
+
+/-- Every constructor of `Expr` stands for one of the listed struct types. -/
+theorem exprGoType_mem (e : Expr) : Checked.exprGoType e ∈ Checked.modelExprTypes := by
+  cases e <;> simp [Checked.exprGoType, Checked.modelExprTypes]
+
+/-- **C13 (CloneExpr).** For every expression the type switch of `CloneExpr` (as regenerated from
+/repo) has a case — `panic("unreachable")` is not reached —, the stores `args[i]` are in range, and
+the clone equals the original. -/
+theorem cloneExpr_no_panic (e : Expr) : Checked.cloneExpr e = .ok e := Checked.cloneExpr_eq e
+
+/-- **C13 (SelectStatement.Clone, cloneSources, cloneSource, Measurement.Clone).** For every
+statement, subqueries at any depth included. (A `Target` without `Measurement` cannot be written
+in the model: that nil dereference is outside the inventory.) -/
+theorem cloneSelect_no_panic (s : SelectStmt) : Checked.cloneSelect s = .ok s := Checked.cloneSelect_eq s
+
+theorem cloneSource_no_panic (s : Source) : Checked.cloneSource s = .ok s := Checked.cloneSource_eq s
+
+/-! ## `RewriteRegexConditions` -/
+
+/-- **C13 (RewriteRegexConditions).** With the checked reads `vals[0]`, `vals[i]` the rewrite returns,
+for every condition and whatever `matchExactRegex` answers (`exact`), what the total model of C11
+returns. In particular `host =~ /a/ + 1` is left alone (repaired by 811d75b). -/
+theorem rewriteRegexExpr_no_panic (exact : Str → Option (List Str)) (e : Expr) :
+    Checked.rewriteRegexExpr exact e = .ok (Rx.rewriteExpr exact e) := Checked.rewriteRegexExpr_eq exact e
+
+theorem rewriteRegexCondition_no_panic (parseRe : Str → Option Rx.Regex) (c : Option Expr) :
+    Checked.rewriteRegexCondition (Rx.matchExact parseRe) c = .ok (Rx.rewriteCondition parseRe c) :=
+  Checked.rewriteRegexCondition_eq parseRe c
+
+/-- **C13 (matchRegex).** On every tree that satisfies the invariants of `regexp/syntax` output
+(`Regex.wf`: a capture has one sub-expression, a concatenation or alternation at least one, a
+character class an even number of bounds with `lo ≤ hi`; leaves have none) the checked
+`matchRegex` — `re.Sub[0]`, `re.Sub[1:]`, `names[0]`, `vals[0]`, `concat[i*len(vals)+j]`,
+`re.Rune[i]`, `re.Rune[i+1]` — does not panic. The hypothesis is a guarantee of the standard
+library, not of the parser; the oracle of the C11 streams (`regex.match`, `regex.sem`) checks it on
+every tree it is sent. -/
+theorem matchRegex_no_panic (re : Rx.Regex) (hw : re.wf = true) :
+    (Checked.matchRegex re).isPanic = false := Checked.matchRegex_np re hw
+
+/-- **C13 (matchExactRegex).** `re.Sub[0]`, `re.Sub[len(re.Sub)-1]`, `re.Sub[1 : len(re.Sub)-1]` are
+guarded by `len(re.Sub) < 2`; the inner tree handed to `matchRegex` is well-formed again. -/
+theorem matchExactRegex_no_panic (re : Rx.Regex) (hw : re.wf = true) :
+    (Checked.matchExactTree re).isPanic = false := Checked.matchExactTree_np re hw
+
+/-- The hypothesis of `matchRegex_no_panic` is needed: a capture node without sub-expression (never
+built by `regexp/syntax`) makes `re.Sub[0]` panic. -/
+theorem matchRegex_needs_wf : (Checked.matchRegex (.mk .capture 0 [] [])).isPanic = true := by decide
+
+/-! ## `RewriteFields`: the two sites of the wildcard expansion of a call field -/
+
+/-- **C13 (RewriteFields, `case *Call:`).** For a field that is a call, `CloneExpr(expr).(*Call)`
+holds (the clone of a call is a call), and `call.Args[0]` is read only behind `len(call.Args) > 0`
+(in the descent) or after `len(call.Args) == 0` was excluded: no panic, whatever the fuel given to
+the descent loop (`.err` = fuel exhausted) … -/
+theorem rewriteFieldsCallHead_no_panic (fuel : Nat) (name : Str) (args : List Expr) :
+    (Checked.rewriteFieldsCallHead fuel (.call name args)).isPanic = false :=
+  Checked.rewriteFieldsCallHead_np fuel name args
+
+/-- … and the descent ends: for some fuel the prologue returns a value. -/
+theorem rewriteFieldsCallHead_terminates (name : Str) (args : List Expr) :
+    ∃ fuel r, Checked.rewriteFieldsCallHead fuel (.call name args) = .ok r := by
+  obtain ⟨fuel, ⟨cn, cargs⟩, h⟩ := Checked.innerCallLoop_terminates name args
+  refine ⟨fuel, ?_⟩
+  unfold Checked.rewriteFieldsCallHead
+  rw [Checked.cloneExpr_eq]
+  simp only [Checked.ok_bind, Checked.asCall, Checked.assertT]
+  rw [h]
+  simp only [Checked.ok_bind]
+  by_cases hc : cargs.length = 0
+  · rw [if_pos hc]; exact ⟨_, rfl⟩
+  · rw [if_neg hc, Checked.idx_of_eq Checked.sRFArgs0 cargs (i := 0) (n := 0) (x := cargs[0]) rfl
+      (List.getElem?_eq_getElem (by omega))]
+    exact ⟨_, rfl⟩
+
+/-! ## `Reduce`, `Eval` -/
+
+/-- **C13 (Reduce).** With checked integer `/` and `%` (`reduceBinaryExprDurationLHS`, `…IntegerLHS`,
+`…UnsignedLHS`) and checked stores `args[i]`, `argVals[i]` (`reduceCall`), `Reduce` returns, for every
+expression, every valuer, every float arithmetic and every string oracle, what the total model of
+C09 returns. `10s / 0.5` included (repaired by af66bbd). -/
+theorem reduce_no_panic {F : Type} (A : FloatAlg F) (S : StrAlg) (V : Valuer F) (e : RExpr F) :
+    Checked.Reduce A S V e = .ok (InfluxQL.Reduce A S V e) := Checked.Reduce_eq A S V e
+
+/-- **C13 (Eval).** With the six checked integer `/` `%` of `evalBinaryExpr` and the checked stores
+`args[i]`, `Eval` returns what the total model of C09 returns, provided the integers are `int64`s:
+`intsOk e` — every integer literal of `e` is in the `int64` range — and `valuerIntsOk V` — so is
+every integer the valuer returns. (The model's `Int` is wider than Go's `int64`; the guard
+`rhs == 0` before `lhs / uint64(rhs)` protects the division only for an `int64` `rhs`.) -/
+theorem eval_no_panic {F : Type} (A : FloatAlg F) (S : StrAlg) (ifd : Bool) (V : Valuer F)
+    (hV : Checked.valuerIntsOk V) (e : RExpr F) (he : Checked.intsOk e = true) :
+    Checked.eval A S ifd V e = .ok (InfluxQL.eval A S ifd V e) := (Checked.eval_eq A S ifd V hV e he).1
+
+/-- The hypothesis of `eval_no_panic` is needed in the model: an "integer" outside the `int64`
+range whose low 64 bits are zero passes the guard and divides by zero. -/
+theorem eval_needs_int64 {F : Type} (A : FloatAlg F) (S : StrAlg) :
+    (Checked.evalBin A S false .div (.uint 1) (.int 18446744073709551616)).isPanic = true := by
+  rfl
+
+/-- **C13 (evalCallExprType).** The stores `args[i]` are in range: if `EvalType` answers on every
+argument, so does the loop. -/
+theorem evalCallArgTypes_no_panic (evalType : Expr → OpRes DataType) (g : Expr → DataType)
+    (args : List Expr) (h : ∀ a ∈ args, evalType a = .ok (g a)) :
+    Checked.evalCallArgTypes evalType args = .ok (args.map g) :=
+  Checked.evalCallArgTypes_eq evalType g args h
+
 /-! ## Totality results of the other properties, restated -/
 
 /-- `ColumnNames` returns for every statement (the suffix loop cannot run out of candidates). -/
@@ -195,5 +443,29 @@ theorem requiredPrivileges_total (st : Statement) (hwf : C19.WellFormed st) :
 example : (groupByOffset [.call timeName [.duration 0, .duration 1000000000]]).isPanic = false := by rfl
 example : (normalize [.call timeName []]).isPanic = false := by rfl
 example : (normalize [.call timeName [.integer 5]]).isPanic = false := by rfl
+
+-- the checked primitives are live: outside the guards of the code they do panic
+example : (Checked.sliceFrom Checked.sColArgs ([] : List Expr) 1).isPanic = true := by decide
+example : (Checked.idx Checked.sTimeAscending ([] : List SortField) 0).isPanic = true := by decide
+example : (Checked.slice Checked.sFieldExprArgs ([] : List Expr) 1 ((0 : Int) - 1)).isPanic = true := by decide
+example : (Checked.remI64 Checked.sEvalMod 1 0).isPanic = true := by decide
+example : (Checked.caseOrPanic (α := Expr) Checked.sCloneUnreachable Checked.nCloneExpr ['N', 'o', 'p', 'e']
+    (.ok .nil)).isPanic = true := by decide
+
+-- the checked `matchExactRegex` computes what the total model of C11 computes (samples through the
+-- capture / alternate / literal cases, the three concatenation strategies and a character class)
+section
+open Rx
+private def lit (s : List Nat) : Regex := .mk .literal 0 s []
+private def anchored (inner : List Regex) : Regex :=
+  .mk .concat 0 [] (.mk .beginText 0 [] [] :: inner ++ [.mk .endText 0 [] []])
+example : Checked.matchExactTree (anchored []) = .ok (matchExactTree (anchored [])) := by rfl
+example : let t := anchored [.mk .capture 0 [] [.mk .alternate 0 [] [lit [97], lit [98, 99]]], lit [100]]
+    Checked.matchExactTree t = .ok (matchExactTree t) := by rfl
+example : let t := anchored [lit [100], .mk .alternate 0 [] [lit [97], lit [98, 99]]]
+    Checked.matchExactTree t = .ok (matchExactTree t) := by rfl
+example : let t := anchored [.mk .charClass 0 [97, 99, 120, 121] [], .mk .alternate 0 [] [lit [49], lit [50], lit [51]]]
+    Checked.matchExactTree t = .ok (matchExactTree t) := by rfl
+end
 
 end InfluxQL.C13
